@@ -24,8 +24,8 @@ ASSUMPTIONS = ["scope: every automat machine of the client (the thirteen mailbox
                "the cases that call dilate() - the Dilation machines); subchannels are not used by these programs",
                "after the application has observed closure it issues only get_*/close",
                "server `error` replies other than the consequences of a third participant are flagged"]
-FLOORS = {"quick": {"transitions": 60000, "closed_sides": 1000, "dilated_cases": 150, "prompt_race_cases": 50, "api_calls_from_inside_a_notification": 300, "closes_from_the_wordlist_callback": 10},
-          "thorough": {"transitions": 3000000, "closed_sides": 50000, "dilated_cases": 8000, "prompt_race_cases": 2500, "api_calls_from_inside_a_notification": 15000, "closes_from_the_wordlist_callback": 500}}
+FLOORS = {"quick": {"transitions": 60000, "closed_sides": 1000, "dilated_cases": 150, "prompt_race_cases": 50, "api_calls_from_inside_a_notification": 300, "closes_from_the_wordlist_callback": 10, "closes_from_a_reconnecting_status": 15, "api_calls_from_status_updates": 400},
+          "thorough": {"transitions": 3000000, "closed_sides": 50000, "dilated_cases": 8000, "prompt_race_cases": 2500, "api_calls_from_inside_a_notification": 15000, "closes_from_the_wordlist_callback": 500, "closes_from_a_reconnecting_status": 800, "api_calls_from_status_updates": 20000}}
 DOCUMENTED_VERDICTS = ("happy", "LonelyError", "WrongPasswordError", "ServerError", "WelcomeError",
                        "ServerConnectionError")
 WORDS = ["purple", "sausages", "alpha", "beta", "zulu", "absurd"]
@@ -107,11 +107,29 @@ class Prog:
         self.in_reaction = False
         if self.reactive:
             self.app.on_event = self.react
+            if rng.random() < 0.5:
+                # ... and to status updates (Connecting / Connected / code consumed / closed ...)
+                self.app.status_hook = lambda st: self.react("status:" + type(getattr(st, "mailbox_connection", st)).__name__, status=True)
         self.late_code = spec.get("late_code") and name == "B"
 
-    def react(self, kind, always=False):
+    def react(self, kind, always=False, status=False):
         if self.in_reaction or (not always and self.rng.random() < 0.5):
             return
+        if status:
+            self.status_reactions = getattr(self, "status_reactions", 0) + 1
+            if kind == "status:Connected":
+                self.seen_connected = True
+            if kind == "status:Connecting" and getattr(self, "seen_connected", False) and self.budget["close"] > 0 \
+                    and not self.observed_closed() and self.rng.random() < 0.5:
+                # "the connection is gone again - give up": close() from inside the status update of a reconnection attempt
+                self.in_reaction = True
+                try:
+                    self.reentrant_calls += 1
+                    self.reconnect_closes = getattr(self, "reconnect_closes", 0) + 1
+                    self.do_close()
+                finally:
+                    self.in_reaction = False
+                return
         acts = self.actions()
         if always:
             if self.rng.random() < 0.5 and self.budget["close"] > 0 and not self.observed_closed():
@@ -465,7 +483,7 @@ def run_case(spec):
     triples = ["%s.%s/%s" % k for k in MON.cov]
     return {"violations": viol,
             "nontrivial": trace_digest(sch) if ntrans >= 25 else None,
-            "counters": {"transitions": ntrans, "api_calls": sum(p.ncalls for p in drv.progs), "api_calls_from_inside_a_notification": sum(p.reentrant_calls for p in drv.progs), "closes_from_the_wordlist_callback": sum(getattr(p, "wordlist_closes", 0) for p in drv.progs),
+            "counters": {"transitions": ntrans, "api_calls": sum(p.ncalls for p in drv.progs), "api_calls_from_inside_a_notification": sum(p.reentrant_calls for p in drv.progs), "closes_from_the_wordlist_callback": sum(getattr(p, "wordlist_closes", 0) for p in drv.progs), "api_calls_from_status_updates": sum(getattr(p, "status_reactions", 0) for p in drv.progs), "closes_from_a_reconnecting_status": sum(getattr(p, "reconnect_closes", 0) for p in drv.progs),
                          "closed_sides": sum(int(p.app.closed) for p in drv.progs),
                          "never_closed_sides": sum(int(not p.app.closed) for p in drv.progs),
                          "drops": drv.drops, "third_clients": int(len(drv.progs) > 2),
